@@ -1,5 +1,6 @@
 import Cgm.Props.C06
 import Cgm.Lemmas.Atan2
+import Cgm.Lemmas.Gimbal
 /-!
 # C07 — Euler angles mean intrinsic X-Y-Z everywhere and round-trip via quaternions
 -/
@@ -162,11 +163,149 @@ theorem branch_iff (q : Quat ℝ) (hq : q.magnitude2 = 1) :
   · simp; intro h; linarith
   · simp; rw [not_lt] at h1 h2; constructor <;> linarith
 
-/-- the full gimbal-cone statement of the property (every element within 0.13); kept as a `Prop`:
-the x = 0 / y = ±π/2 parts are `toEuler_gimbal`, the 0.13 envelope is evaluated by the f64
-oracle (worst observed element error 0.0632 ≈ sqrt(1 - 0.998²)) and is not proved here -/
-def gimbal_bound_full : Prop :=
-  ∀ q : Quat ℝ, q.magnitude2 = 1 → q.toEulerBranch ≠ .main →
-    ∀ c r : Fin 3, |(M3.ofEuler q.toEuler.1 q.toEuler.2.1 q.toEuler.2.2).toMatrix r c - q.toM3.toMatrix r c| ≤ 0.13
+/-! ## the 0.13 envelope inside the gimbal cones
+
+The real-number core (`Cgm/Lemmas/Gimbal.lean`): with `(a, b) = (w ∓ y, x ∓ z)` the cone condition
+`|xz + yw| > 0.499` is `a² + b² < 0.002`, and every element of "rebuilt − original" is
+`2 k L + k' δ − r` with `|k|, |k'| ≤ 1`, `|L| ≤ √0.002`, `δ, |r| ≤ 0.002`, i.e. at most `0.094`. -/
+
+/-- close `|g| ≤ 0.13` from a core bound `|d| ≤ 0.13` with `g = ± d` modulo the unit-norm equation `hq'` -/
+local macro "gb" k:ident h:ident : tactic =>
+  `(tactic| first
+    | (refine le_of_eq_of_le (congrArg abs ?_) $k; first | ring1 | linear_combination $h:ident | linear_combination -$h:ident)
+    | (rw [← abs_neg]; refine le_of_eq_of_le (congrArg abs ?_) $k;
+       first | ring1 | linear_combination $h:ident | linear_combination -$h:ident))
+
+theorem gimbal_pos_formula (q : Quat ℝ) (h : q.toEulerBranch = .pos) :
+    q.toEuler = (0, (Lits.radFull : ℝ) / 4, Complex.arg ⟨q.s, q.v.x⟩ * 2) := by
+  unfold Quat.toEulerBranch at h
+  unfold Quat.toEuler
+  simp only at h ⊢
+  split_ifs at h with h1 h2
+  simp [h1, Angle.turnDiv]
+
+theorem gimbal_bound_pos (hπ : (Lits.radFull : ℝ) = 2 * π) (hsig : (Lits.sig : ℝ) = 0.499)
+    (q : Quat ℝ) (hq : q.magnitude2 = 1) (hb : q.toEulerBranch = .pos) :
+    ∀ c r : Fin 3, |(M3.ofEuler q.toEuler.1 q.toEuler.2.1 q.toEuler.2.2).toMatrix r c - q.toM3.toMatrix r c| ≤ 0.13 := by
+  obtain ⟨⟨x, y, z⟩, w⟩ := q
+  have hq' : w * w + (x * x + (y * y + z * z)) = 1 := by simpa using hq
+  have ht : 0.499 < x * z + y * w := by
+    unfold Quat.toEulerBranch at hb
+    simp only at hb
+    split_ifs at hb with h1 h2
+    have hu : x * x + z * z + y * y + w * w = 1 := by linarith
+    rw [hu, hsig] at h1
+    linarith
+  rw [gimbal_pos_formula _ hb]
+  simp only
+  have hne : w ≠ 0 ∨ x ≠ 0 := by
+    by_contra hcon
+    rw [not_or, not_not, not_not] at hcon
+    obtain ⟨rfl, rfl⟩ := hcon
+    norm_num at ht
+  obtain ⟨hcw, hsx, -, -⟩ := atan2_spec x w hne
+  have hnn : 0 ≤ w * w + x * x := by nlinarith [mul_self_nonneg w, mul_self_nonneg x]
+  have hρ : Real.sqrt (w * w + x * x) * Real.sqrt (w * w + x * x) = w * w + x * x := Real.mul_self_sqrt hnn
+  set φ := Complex.arg ⟨w, x⟩ with hφ
+  set ρ := Real.sqrt (w * w + x * x) with hρdef
+  have hs : Real.sin (φ * 2) * (w * w + x * x) = 2 * x * w := by
+    rw [mul_comm φ 2, Real.sin_two_mul]
+    linear_combination (-(2 * Real.sin φ * Real.cos φ)) * hρ + (2 * ρ * Real.sin φ) * hcw + (2 * w) * hsx
+  have hc : Real.cos (φ * 2) * (w * w + x * x) = w * w - x * x := by
+    rw [mul_comm φ 2, Real.cos_two_mul]
+    linear_combination (-(2 * Real.cos φ * Real.cos φ)) * hρ + (2 * (ρ * Real.cos φ + w)) * hcw
+  have hu : 2 * w * w + 2 * x * x - 2 * (w - y) * w - 2 * (x - z) * x + (w - y) * (w - y) + (x - z) * (x - z) = 1 := by
+    linear_combination hq'
+  have hd : (w - y) * (w - y) + (x - z) * (x - z) < 0.002 := by nlinarith
+  obtain ⟨k00, k01, k02, k10, k11, k12, k20, k21, k22⟩ := Gimbal.core hu hd hs hc
+  have hq4 : (2 * π / 4) = π / 2 := by ring
+  intro c r
+  fin_cases c <;> fin_cases r <;>
+    simp [M3.toMatrix, hπ, hq4]
+  · gb k00 hq'
+  · gb k01 hq'
+  · gb k02 hq'
+  · gb k10 hq'
+  · gb k11 hq'
+  · gb k12 hq'
+  · gb k20 hq'
+  · gb k21 hq'
+  · gb k22 hq'
+theorem gimbal_neg_formula (q : Quat ℝ) (h : q.toEulerBranch = .neg) :
+    q.toEuler = (0, -((Lits.radFull : ℝ) / 4), -Complex.arg ⟨q.s, q.v.x⟩ * 2) := by
+  unfold Quat.toEulerBranch at h
+  unfold Quat.toEuler
+  simp only at h ⊢
+  split_ifs at h with h1 h2
+  rw [neg_mul] at h2
+  simp [h1, h2, Angle.turnDiv]
+
+theorem gimbal_bound_neg (hπ : (Lits.radFull : ℝ) = 2 * π) (hsig : (Lits.sig : ℝ) = 0.499)
+    (q : Quat ℝ) (hq : q.magnitude2 = 1) (hb : q.toEulerBranch = .neg) :
+    ∀ c r : Fin 3, |(M3.ofEuler q.toEuler.1 q.toEuler.2.1 q.toEuler.2.2).toMatrix r c - q.toM3.toMatrix r c| ≤ 0.13 := by
+  obtain ⟨⟨x, y, z⟩, w⟩ := q
+  have hq' : w * w + (x * x + (y * y + z * z)) = 1 := by simpa using hq
+  have ht : x * z + y * w < -0.499 := by
+    unfold Quat.toEulerBranch at hb
+    simp only at hb
+    split_ifs at hb with h1 h2
+    have hu : x * x + z * z + y * y + w * w = 1 := by linarith
+    rw [hu, hsig] at h2
+    linarith
+  rw [gimbal_neg_formula _ hb]
+  simp only
+  have hne : w ≠ 0 ∨ x ≠ 0 := by
+    by_contra hcon
+    rw [not_or, not_not, not_not] at hcon
+    obtain ⟨rfl, rfl⟩ := hcon
+    norm_num at ht
+  obtain ⟨hcw, hsx, -, -⟩ := atan2_spec x w hne
+  have hnn : 0 ≤ w * w + x * x := by nlinarith [mul_self_nonneg w, mul_self_nonneg x]
+  have hρ : Real.sqrt (w * w + x * x) * Real.sqrt (w * w + x * x) = w * w + x * x := Real.mul_self_sqrt hnn
+  set φ := Complex.arg ⟨w, x⟩ with hφ
+  set ρ := Real.sqrt (w * w + x * x) with hρdef
+  have hs : Real.sin (φ * 2) * (w * w + x * x) = 2 * x * w := by
+    rw [mul_comm φ 2, Real.sin_two_mul]
+    linear_combination (-(2 * Real.sin φ * Real.cos φ)) * hρ + (2 * ρ * Real.sin φ) * hcw + (2 * w) * hsx
+  have hc : Real.cos (φ * 2) * (w * w + x * x) = w * w - x * x := by
+    rw [mul_comm φ 2, Real.cos_two_mul]
+    linear_combination (-(2 * Real.cos φ * Real.cos φ)) * hρ + (2 * (ρ * Real.cos φ + w)) * hcw
+  have hu : 2 * w * w + 2 * x * x - 2 * (w + y) * w - 2 * (x + z) * x + (w + y) * (w + y) + (x + z) * (x + z) = 1 := by
+    linear_combination hq'
+  have hd : (w + y) * (w + y) + (x + z) * (x + z) < 0.002 := by nlinarith
+  obtain ⟨k00, k01, k02, k10, k11, k12, k20, k21, k22⟩ := Gimbal.core hu hd hs hc
+  have hq4 : (2 * π / 4) = π / 2 := by ring
+  intro c r
+  fin_cases c <;> fin_cases r <;>
+    simp [M3.toMatrix, hπ, hq4]
+  · gb k00 hq'
+  · gb k01 hq'
+  · gb k02 hq'
+  · gb k10 hq'
+  · gb k11 hq'
+  · gb k12 hq'
+  · gb k20 hq'
+  · gb k21 hq'
+  · gb k22 hq'
+
+/-- **the 0.13 envelope of the property**: inside either gimbal cone, every element of the rotation
+matrix rebuilt from the reported Euler angles is within 0.13 of the quaternion's matrix.
+(`radFull = 2π` and `sig = 0.499` are what the `f64` literals denote; the statement is over ℝ.) -/
+theorem gimbal_bound (hπ : (Lits.radFull : ℝ) = 2 * π) (hsig : (Lits.sig : ℝ) = 0.499)
+    (q : Quat ℝ) (hq : q.magnitude2 = 1) (hb : q.toEulerBranch ≠ .main) :
+    ∀ c r : Fin 3, |(M3.ofEuler q.toEuler.1 q.toEuler.2.1 q.toEuler.2.2).toMatrix r c - q.toM3.toMatrix r c| ≤ 0.13 := by
+  cases hbr : q.toEulerBranch with
+  | pos => exact gimbal_bound_pos hπ hsig q hq hbr
+  | neg => exact gimbal_bound_neg hπ hsig q hq hbr
+  | main => exact absurd hbr hb
+
+/-- non-vacuity: a unit quaternion inside the positive cone (`2·(20/29)·(21/29) = 0.99881…`) -/
+example (hsig : (Lits.sig : ℝ) = 0.499) :
+    let q : Quat ℝ := ⟨⟨0, 21 / 29, 0⟩, 20 / 29⟩
+    q.magnitude2 = 1 ∧ q.toEulerBranch = .pos := by
+  refine ⟨by norm_num [Quat.magnitude2], ?_⟩
+  unfold Quat.toEulerBranch
+  simp only [hsig]
+  norm_num
 
 end Cg.C07
